@@ -30,6 +30,16 @@ impl Driven for D {
          _ => panic!("verif harness: unknown relation {}", rel),
       }
    }
+   fn clear(&mut self, rel: &str) {
+      match rel {
+         "t_rn" => { self.0.t_rn = Default::default(); },
+         "u_rn" => { self.0.u_rn = Default::default(); },
+         "r1_rn" => { self.0.r1_rn = Default::default(); },
+         "r2_rn" => { self.0.r2_rn = Default::default(); },
+         "r3_rn" => { self.0.r3_rn = Default::default(); },
+         _ => panic!("verif harness: unknown relation {}", rel),
+      }
+   }
    fn run(&mut self) { self.0.run(); }
    fn dump(&self) -> Value {
       let mut m: Vec<(String, Value)> = vec![];
